@@ -265,6 +265,9 @@ func runMaintPassCase(seed uint64, k, idx int) {
 	}
 	var mu sync.Mutex
 	setup := true
+	// every sixth case: the application closes the node while a bucket refresh has a query in flight; the maintainer
+	// must return, everything it started must end, the API must go on returning (no mpass line for these)
+	closeMid, closeSent := k%6 == 4, false
 	type wr struct {
 		to     *net.UDPAddr
 		q      string
@@ -278,6 +281,11 @@ func runMaintPassCase(seed uint64, k, idx int) {
 		}
 		mu.Lock()
 		inSetup := setup
+		if !inSetup && closeMid && !closeSent && m.Q == "find_node" && m.A != nil && m.A.Target != root {
+			// the first query of a bucket refresh is on the wire (nobody answers it): Close now
+			closeSent = true
+			go s.Close()
+		}
 		if !inSetup {
 			w := wr{to: to, q: m.Q}
 			if m.A != nil {
@@ -362,6 +370,44 @@ func runMaintPassCase(seed uint64, k, idx int) {
 	setup = false
 	mu.Unlock()
 	conn.takeWrites()
+	if closeMid {
+		mdone := make(chan struct{})
+		go func() { s.TableMaintainer(); close(mdone) }()
+		select {
+		case <-mdone:
+		case <-time.After(15 * time.Second):
+			oracle("C14", "maintainer-does-not-return-after-close:during-bucket-refresh", "case=%d pass k=%d close-sent=%v", idx, k, closeSent)
+		}
+		api := make(chan struct{})
+		go func() { s.Stats(); s.NumNodes(); s.Nodes(); close(api) }()
+		select {
+		case <-api:
+			for dl := time.Now().Add(4 * time.Second); len(s.VerifPending()) > 0 && time.Now().Before(dl); {
+				time.Sleep(time.Millisecond)
+			}
+			if n := len(s.VerifPending()); n > 0 {
+				oracle("C14", "transaction-leak", "case=%d pass k=%d: %d transactions pending 4 s after Close during a bucket refresh", idx, k, n)
+			}
+		case <-time.After(5 * time.Second):
+			oracle("C01", "api-does-not-return:maint-close-during-refresh", "case=%d pass k=%d", idx, k)
+		}
+		left := 0
+		for dl := time.Now().Add(4 * time.Second); ; {
+			left = goroutinesInside("github.com/anacrolix/dht/v2/traversal.")
+			if left == 0 || time.Now().After(dl) {
+				break
+			}
+			time.Sleep(5 * time.Millisecond)
+		}
+		if left > 0 {
+			oracle("C14", "maintainer-left-traversal-running", "case=%d pass k=%d: %d goroutines inside the traversal package 4 s after Close during a bucket refresh", idx, k, left)
+		}
+		emit("# mpass %d close-during-refresh close-sent=%v", idx, closeSent)
+		s.Close()
+		conn.Close()
+		emit("mend %d => ok", idx)
+		return
+	}
 	go s.TableMaintainer()
 	ended := false
 	for dl := time.Now().Add(40 * time.Second); time.Now().Before(dl); {
